@@ -171,24 +171,32 @@ theorem disabled_step (d : Disabled) (op : SOp) (command plugin : Str) :
   rw [isDisabled_eq, disabledK_step, ← isDisabled_eq]
   cases op <;> rfl
 
-/-! Full statement about `Owner.enable` (FALSE on the pinned tree, known finding
-`C14-global-enable-error-erases-plugin-entry`):
+/-- **An `enable` that is answered with an error changes nothing** (since fix 6f88b83; before it,
+`disable VtOrderB igno` then `enable igno` reported "That command wasn't disabled." but had already
+deleted the whole store entry, per-plugin disables included). -/
+theorem enable_error_changes_nothing (s : OwnerSt) (pl : Option Str) (c : Str)
+    (h : (ownerEnable s pl c).2 = false) : (ownerEnable s pl c).1 = s := by
+  unfold ownerEnable at h ⊢
+  cases pl <;> simp only at h ⊢ <;> split <;> simp_all
 
-    theorem enable_error_changes_nothing (s : OwnerSt) (pl : Option Str) (c : Str) :
-        (ownerEnable s pl c).2 = false → (ownerEnable s pl c).1 = s
+/-- a successful `enable` is one step of the store (`remove_eq_step`) and takes the name out of the registry set -/
+theorem enable_ok_step (s : OwnerSt) (pl : Option Str) (c : Str) (h : (ownerEnable s pl c).2 = true) :
+    (ownerEnable s pl c).1.store = stepK s.store (match pl with
+      | none => .enableAll (canonicalName c)
+      | some p => .enableFor (canonicalName p) (canonicalName c)) := by
+  have hr := remove_eq_step s.store c pl
+  unfold ownerEnable at h ⊢
+  cases pl <;> simp only at h hr ⊢ <;> split <;> simp_all
 
-`enable <command>` removes the whole store entry first and only then looks for the name in the
-registry set; when the command was disabled per plugin the second step raises, the owner is told
-"That command wasn't disabled." — and the per-plugin disable is gone from the live store. -/
-
-/-- the witness: after `disable VtOrderB igno`, `enable igno` reports an error and re-enables `VtOrderB.igno` -/
-theorem enable_error_erases_entry :
+/-- the former witness: after `disable VtOrderB igno`, `enable igno` reports an error and
+`VtOrderB.igno` stays disabled -/
+theorem enable_global_keeps_plugin_entry :
     let s0 : OwnerSt := ⟨[], []⟩
     let b : Str × List Str := (['V', 't', 'O', 'r', 'd', 'e', 'r', 'B'], [['i', 'g', 'n', 'o']])
     let s1 := (ownerDisable s0 (some b) ['i', 'g', 'n', 'o']).1
     isDisabled s1.store ['i', 'g', 'n', 'o'] b.1 = true ∧
     (ownerEnable s1 none ['i', 'g', 'n', 'o']).2 = false ∧
-    isDisabled (ownerEnable s1 none ['i', 'g', 'n', 'o']).1.store ['i', 'g', 'n', 'o'] b.1 = false := by
+    isDisabled (ownerEnable s1 none ['i', 'g', 'n', 'o']).1.store ['i', 'g', 'n', 'o'] b.1 = true := by
   decide
 
 /-- **A plugin-qualified name reaches that plugin**: with the callbacks `pre ++ P :: post`, `P`
